@@ -1259,9 +1259,16 @@ pub fn truncation_case(no: usize, cut: usize, rng: &mut Rng) -> Scenario {
     let order_bad_first = cut % 2 == 0;
     let names = ["gen-alpha", "tools/beta.exe"];
     let mut metas = Vec::new();
+    let hint = request_size_hint(&program);
     for (i, name) in names.iter().enumerate() {
         let is_bad = (i == 0) == order_bad_first;
-        sim.generators.insert((*name).to_owned(), vec![if is_bad { bad.clone() } else { good.clone() }]);
+        let mut g = if is_bad { bad.clone() } else { good.clone() };
+        // seeded pipe capacities, never so small that the request alone takes thousands of transfers
+        g.stdin_cap = *rng.pick(&[16usize, 64, 512, 4096, 65536]);
+        g.stdout_cap = *rng.pick(&[1usize, 7, 64, 4096, 65536]);
+        g.stderr_cap = 4096;
+        gens::normalise(&mut g, hint);
+        sim.generators.insert((*name).to_owned(), vec![g]);
         argv.push("-G".into());
         argv.push((*name).to_owned());
         metas.push(GenMeta { path: (*name).to_owned(), args: vec![], kind: if is_bad { "truncated".into() } else { "ok".into() } });
